@@ -357,12 +357,12 @@ def hub_script(rng, cfg):
     kind = cfg.kind
     base = rng.choice([0, 1000, -300])
     hub = base
-    leaves = [base + 2 * i + 1 for i in range(40)]
+    leaves = [base + 2 * i + 1 for i in range(40 if not getattr(cfg, "large_hub", False) else 120)]
     cfg.labels = [hub] + leaves
     cfg.uni_name = "wide"
     role = rng.choice(["source", "target"])
     keys, seen = [], set()
-    n_keys = rng.randint(70, 140)
+    n_keys = rng.randint(70, 140) if not getattr(cfg, "large_hub", False) else rng.randint(260, 320)
     while len(keys) < n_keys:
         others = rng.sample(leaves, rng.randint(1, 3))
         if kind == "H":
@@ -668,6 +668,11 @@ def run_history(ctx, rng, cfg, ops=None, battery_every=1, after_event=None, tag=
             except Exception:
                 ok_held = False
             ctx.check(f"{tag}:listings-are-snapshots", ok_held, f"{tag}:listing-returned-earlier-changed-after:{name}", lambda: {"trace": trace[-6:], "held_edges": repr(held[0])[:300]}, abort=True)
+            # ... and the caller owns them: emptying a listing it was handed must not change what the container answers next
+            # (the observation taken right below is compared with the model as usual)
+            for lst in held:
+                if isinstance(lst, list):
+                    lst.clear()
         P = []
         try:
             S_after = observe(h, P)
